@@ -376,6 +376,25 @@ func c08AsDataCount(tier string) int {
 	return n
 }
 
+// genC08Sigils: script text that merely *names* something of the outside world - an environment variable or a
+// path spelled as a symbol with the usual sigils - must not reach it either
+func genC08Sigils(r *kernel.RNG, tier string, i int) interface{} {
+	cfg := c08Configs[i%len(c08Configs)]
+	sc := &c08Scenario{Config: cfg}
+	stems := []string{canaryEnv, "HOME", "PATH", "USER", "PWD"}
+	forms := []string{"$%s", "${%s}", "$(%s)", "@%s", "env.%s", "os.%s", "ENV.%s", "#%s", "?%s", "%%%s%%", "%s", ".%s", "$env.%s", "sys.%s"}
+	for _, st := range stems {
+		for _, f := range forms {
+			sym := fmt.Sprintf(f, st)
+			sc.Calls = append(sc.Calls, c08Call{Name: "begin", Args: sym, Route: "direct"})
+			if r.Chance(0.5) {
+				sc.Calls = append(sc.Calls, c08Call{Name: r.Pick([]string{"str", "defined?", "println", "len", "quote", "eval", "symnum", "type?"}), Args: r.Pick([]string{sym, fmt.Sprintf("%q", sym), "(quote " + sym + ")"}), Route: r.Pick(c08Routes)})
+			}
+		}
+	}
+	return sc
+}
+
 func c08NameCount(tier string) int {
 	n := len(nameUniverse("std"))
 	per := 8
@@ -476,6 +495,12 @@ func init() {
 		},
 		Parts: []*kernel.Part{
 			{Name: "names", Count: c08NameCount, Generate: genC08Names, Execute: execC08, Shrink: shrinkC08},
+			{Name: "sigils", Count: func(tier string) int {
+				if tier == "thorough" {
+					return 60
+				}
+				return 12
+			}, Generate: genC08Sigils, Execute: execC08, Shrink: shrinkC08},
 			{Name: "names-as-data", Count: c08AsDataCount, Generate: genC08AsData, Execute: execC08, Shrink: shrinkC08},
 			{Name: "corpus", Count: func(tier string) int {
 				if tier == "thorough" {
